@@ -6,9 +6,16 @@
      happened entirely or not at all.
    PROVED (…_partial: one process lifetime; the reopen clause is exactly what F4 breaks):
      no operation ever panics, every operation returns, every other key keeps exactly its content,
-     the keys of a failed operation hold old or new, and every later read agrees with some such map. *)
+     the keys of a failed operation hold old or new, and every later read agrees with some such map.
+   PROVED about the reopen clause (proofs/FaultReopen.v):
+     C14_reopen_after_any_single_fault: ONE operation hit by a fault at ANY of its calls (WAL calls
+     included), then a reopen: it succeeds and shows the old or the new map - F4 needs a LATER
+     operation of the same process that reclaims the blob the stale record names;
+     C14_history_after_benign_fault: after a fault that struck before the blob was published
+     (staging calls, mkdirs, the staging->cas rename) the invariant is intact and every further
+     history with restarts and crashes behaves as specified. *)
 From Cas Require Import History.
-From CasProofs Require Import StoreFS StoreInv StoreWrite StoreHist Faults FaultHist FaultWitness.
+From CasProofs Require Import StoreFS StoreInv StoreWrite StoreHist Faults FaultHist FaultWitness RestartHist CrashInv CrashHist FaultReopen.
 
 Theorem C14_put_fault_contained :
   forall H : bytes -> bytes,
@@ -62,6 +69,60 @@ Theorem C14_reads_stay_correct_partial :
                        /\ In sgf (possible_maps cfg sg ops) /\ LiveF H cfg m' (wfs w') sgf).
 Proof. exact FaultHist.C14_fault_contained_handle_partial. Qed.
 Print Assumptions C14_reads_stay_correct_partial.
+
+
+(* one operation from a state at rest, the j-th of its calls fails (any j, any call): no panic,
+   memory and CAS hold old or new, the disk is recoverable to old or new, and the next open
+   succeeds with exactly one of the two *)
+Theorem C14_reopen_after_any_single_fault :
+  forall H : bytes -> bytes,
+    (forall b, length (H b) = 32%nat) -> (forall b, Forall (fun x => x < 256) (H b)) ->
+  forall cfg : config, 0 < c_n cfg ->
+  forall (m : mem) (s : fs) (sg : smap bytes) (os : option ostats) (o : op) (w : world) (j : nat),
+    Inv' H cfg m s sg -> wfs w = s -> wfault w = None ->
+    api_op cfg o -> NoCollide H (op_contents o ++ map snd sg) -> op_fits_at cfg sg o ->
+    N.of_nat (length sg) + 1 < 2 ^ 32 -> nextv (mwal m) < 2 ^ 64 ->
+    let '(x, hd', w') := step H (Some (mkHandle cfg m os)) o (arm (wcount w + j) w) in
+    x <> OutErr EPanic
+    /\ (exists m', hd' = Some (mkHandle cfg m' os)
+          /\ (LiveF H cfg m' (wfs w') sg \/ LiveF H cfg m' (wfs w') (spec_step (key_cmp (c_kt cfg)) sg o)))
+    /\ (Rest H cfg (wfs w') sg \/ Rest H cfg (wfs w') (spec_step (key_cmp (c_kt cfg)) sg o))
+    /\ (exists m2 os2 w2,
+          open_with_recover H cfg (init_world (wfs w') None) = (Ok (m2, os2), w2)
+          /\ (Inv' H cfg m2 (wfs w2) sg \/ Inv' H cfg m2 (wfs w2) (spec_step (key_cmp (c_kt cfg)) sg o))).
+Proof. exact FaultReopen.C14_reopen_after_any_single_fault_op. Qed.
+Print Assumptions C14_reopen_after_any_single_fault.
+
+(* a fault that strikes before the blob is published leaves the full invariant intact; every
+   further history (operations, restarts, crashes at any instant, crashes during recovery)
+   then behaves as specified from the old map or from the operation's result *)
+Theorem C14_history_after_benign_fault :
+  forall H : bytes -> bytes,
+    (forall b, length (H b) = 32%nat) -> (forall b, Forall (fun x => x < 256) (H b)) ->
+  forall cfg : config, 0 < c_n cfg ->
+  forall (m : mem) (s : fs) (sg : smap bytes) (os : option ostats) (o : op) (w : world) (j : nat) (h : list ev),
+    Inv' H cfg m s sg -> wfs w = s -> wfault w = None ->
+    api_op cfg o -> NoCollide H (flat_map ev_contents h ++ op_contents o ++ map snd sg) ->
+    op_fits_at cfg sg o -> ext_fits cfg sg h -> ext_fits cfg (spec_step (key_cmp (c_kt cfg)) sg o) h ->
+    N.of_nat (length sg) + 1 + N.of_nat (length h) < 2 ^ 32 ->
+    N.of_nat (length (spec_step (key_cmp (c_kt cfg)) sg o)) + N.of_nat (length h) < 2 ^ 32 ->
+    nextv (mwal m) + 1 + N.of_nat (length h) <= 2 ^ 32 ->
+    let '(_, hd', w') := step H (Some (mkHandle cfg m os)) o (arm (wcount w + j) w) in
+    (forall c, In (TCall c) (new_trace w w') -> StageCall c) ->
+    (forall c, In (TFault c) (new_trace w w') -> StageCall c \/ BlobRename c) ->
+    exists hd1, hd' = Some hd1
+      /\ (exists hd2 w2, run_ext H cfg (hd1, disarm w') h = Some (hd2, w2) /\ h_cfg hd2 = cfg
+           /\ (exists sgf, (allowed cfg sg h sgf \/ allowed cfg (spec_step (key_cmp (c_kt cfg)) sg o) h sgf)
+                           /\ Inv' H cfg (h_mem hd2) (wfs w2) sgf)).
+Proof. exact FaultReopen.C14_history_after_benign_fault. Qed.
+Print Assumptions C14_history_after_benign_fault.
+
+(* computed instances: a fault at the staging->cas rename (old map after reopen), at the creation of
+   index.tmp in a rollover checkpoint (new map), at the seal of a full segment (old map), and at the
+   WAL record append of a single operation (old map without close, new map with close) *)
+Example C14_reopen_examples := (FaultReopen.reopen_after_fault_at_blob_rename, FaultReopen.reopen_after_fault_at_index_tmp,
+                                FaultReopen.reopen_after_wal_append_fault_single_op).
+
 
 (* the reopen clause is refuted on the known class F4: a fault at the WAL append of a put whose
    content is reclaimed afterwards; the store then refuses to open (witness by vm_compute) *)
